@@ -1,129 +1,284 @@
-"""C05 contracts"""
-from pyvc.contract import contract
+"""C05 (and the CRC stubs used by C03/C04/C07/C09): CRC engines and front ends against the monomial-remainder spec.
+
+Functions under contract: BitCrcRegister._process_bits (loop cut), TableBasedBitCrcRegister._process_bits,
+BitCrcRegisterBase.init/update/digest, BitCrcCalculator.calculate_checksum, bits_create_lookup_table (inlined: its
+real result is what the table register indexes), BitCrcConfiguration.calc_feed_width_bits, CRC8/CRC9/CRC16/CRC32
+calculate / check, CRC9.calculate_from_parts, bits_bytes.bytes_to_bits / byteswap_bytes.
+"""
+import itertools
+
+from pyvc.contract import contract, stub
 from spec import crc as S
 import okdmr.dmrlib.etsi.crc.crc as crc
 from okdmr.dmrlib.etsi.crc.crc16 import CRC16
 from okdmr.dmrlib.etsi.crc.crc8 import CRC8
 from okdmr.dmrlib.etsi.crc.crc9 import CRC9
+from okdmr.dmrlib.etsi.crc.crc32 import CRC32
 from okdmr.dmrlib.etsi.layer2.elements.crc_masks import CrcMasks
 
 CONFS = {"Crc7": crc.Crc7.ETSI_DMR, "Crc8": crc.Crc8.ETSI_DMR, "Crc9": crc.Crc9.ETSI_DMR, "Crc16": crc.Crc16.ETSI_DMR, "Crc32": crc.Crc32.ETSI_DMR}
+FEED = {"Crc7": 7, "Crc8": 8, "Crc9": 9, "Crc16": 8, "Crc32": 8}  # "8, else the largest divisor of the width in 2..15"
 
 
-def _bits_value(vc, bits):
-    """list of bits (MSB first) -> int-like"""
-    if vc.mode == "native":
-        v = 0
-        for b in bits:
-            v = (v << 1) | int(b)
-        return v
-    from pyvc.values import SInt
-    return SInt(list(reversed(bits))).n()
+def byte_bits(vc, data):
+    """octets -> bit values, most significant bit of each octet first"""
+    out = []
+    for by in (list(data) if vc.mode == "native" else data.v if hasattr(data, "v") else list(data)):
+        out += vc.bitlist(by, 8)
+    return out
 
 
-def _bitserial_contract(self, bits):
-    """what callers see of BitCrcRegister._process_bits (proved separately with the loop cut)"""
+# ------------------------------------------------------------------------------------------------ bit-serial register
+@stub("BitCrcRegister._process_bits", "okdmr.dmrlib.etsi.crc.crc:BitCrcRegister._process_bits", provided_by="BitCrcRegister._process_bits")
+def bitserial_stub(self, bits):
+    """what callers see of BitCrcRegister._process_bits: register' = lfsr(register, bits); call-site precondition: the
+    chunk length is one the contract below was discharged for (1..feed width) and the configuration is an ETSI one"""
     from pyvc.values import SBits
+    from pyvc.core import Undecided
+
     cfg = self._config
+    if not any(cfg is c.value or cfg == c.value for c in CONFS.values()) and not (cfg.init_value == 0 and cfg.final_xor_value == 0 and (cfg.polynomial, cfg.width_bits) in S.ETSI.values()):
+        raise Undecided("call[BitCrcRegister._process_bits].pre: configuration outside the contract")
+    if not 1 <= len(bits) <= cfg.feed_width_bits:
+        raise Undecided("call[BitCrcRegister._process_bits].pre: chunk length %d outside 1..feed" % len(bits))
     self.register = SBits.of(S.lfsr(self.register.tolist(), bits.tolist(), cfg.polynomial, cfg.width_bits))
     return self.register
 
 
-@contract("BitCrcCalculator.calculate_checksum", "okdmr.dmrlib.etsi.crc.crc:BitCrcCalculator.calculate_checksum", ["C05", "C19"], stubs=["BitCrcRegister._process_bits"])
-def engine(vc, conf, n, table):
-    if vc.mode == "symbolic":
-        real = crc.BitCrcRegister._process_bits
-        crc.BitCrcRegister._process_bits = _bitserial_contract
-        try:
-            return _engine(vc, conf, n, table)
-        finally:
-            crc.BitCrcRegister._process_bits = real
-    return _engine(vc, conf, n, table)
-
-
-def _engine(vc, conf, n, table):
-    g, w = S.ETSI[conf]
-    cfg = CONFS[conf].value
-    vc.prove("config_polynomial_is_etsi", cfg.polynomial == g and cfg.width_bits == w and cfg.init_value == 0 and cfg.final_xor_value == 0)
-    calc = crc.BitCrcCalculator(CONFS[conf], table_based=table)
-    # C19: whatever an earlier call left in the register must not matter
-    calc._crc_register._register = vc.bits(w, "leftover")
-    m = vc.bits(n, "m")
-    before = m.copy()
-    r = calc.calculate_checksum(m)
-    vc.prove("length", len(r) == w)
-    want = S.poly_remainder_bits(m.tolist(), g, w)
-    vc.prove("equals_polynomial_remainder", vc.eq(_bits_value(vc, r.tolist()), _bits_value(vc, want)))
-    vc.prove("frame_argument_unchanged", vc.eq(m, before))
-
-
-def _engine_shapes(tier):
-    lengths = range(0, 401) if tier == "thorough" else sorted(set(list(range(0, 34)) + [40, 63, 64, 65, 79, 80, 81, 87, 96, 119, 151, 199, 399, 400]))
-    for conf in CONFS:
-        for n in lengths:
-            yield dict(conf=conf, n=n, table=True)
-            if n <= 24 or tier == "thorough":
-                yield dict(conf=conf, n=n, table=False)
-
-
-engine.shapes = _engine_shapes
-
-
-@contract("CRC16.calculate", "okdmr.dmrlib.etsi.crc.crc16:CRC16.calculate", ["C05", "C03", "C04"])
-def crc16_calculate(vc, nbytes, mask):
-    d = vc.bytes_(nbytes, "d")
-    r = CRC16.calculate(d, CrcMasks[mask])
-    vc.prove("mask_is_etsi", CrcMasks[mask].value == S.MASKS[mask])
-    bits = []
-    for by in (list(d) if vc.mode == "native" else d.v):
-        bits += _byte_bits(vc, by)
-    rem = _bits_value(vc, S.poly_remainder_bits(bits, 0x1021, 16))
-    vc.prove("inverted_remainder_xor_mask", vc.eq(r, (rem ^ 0xFFFF) ^ S.MASKS[mask]))
-    v = vc.uint(16, "v")
-    vc.prove("check_iff_equal", vc.iff(CRC16.check(d, v, CrcMasks[mask]), vc.eq(CRC16.calculate(d, CrcMasks[mask]), v)))
-
-
-def _byte_bits(vc, by):
-    if vc.mode == "native":
-        return [(by >> (7 - i)) & 1 for i in range(8)]
-    from pyvc.values import SInt
-    by = SInt.lift(by)
-    return [by.bit(7 - i) for i in range(8)]
-
-
-crc16_calculate.shapes = lambda tier: [dict(nbytes=n, mask=m) for n in ((0, 1, 2, 9, 10, 12, 40) if tier == "quick" else range(0, 41)) for m in ("CSBK", "DataHeader", "PiHeader", "MBCHeader", "UnifiedSingleBlockData")]
-
-
-# ---- bit-serial register: loop cut with the heap-state invariant register_k = lfsr(r0, bits[:k])
 @contract("BitCrcRegister._process_bits", "okdmr.dmrlib.etsi.crc.crc:BitCrcRegister._process_bits", ["C05"])
-def bitserial(vc, conf, L, k):
+def bitserial(vc, conf, L, phase):
+    """loop cut with the heap-state invariant  register_k = lfsr(r0, bits[:k])  (4 paths per iteration instead of 4^L)"""
     g, w = S.ETSI[conf]
-    if vc.mode == "native":  # natively the whole loop runs; compare the final state
-        reg = crc.BitCrcRegister(CONFS[conf])
-        r0 = vc.bits(w, "r"); d = vc.bits(L, "d")
-        reg.register = r0.copy()
-        reg._process_bits(d)
-        vc.prove("preserved", reg.register.tolist() == S.lfsr(r0.tolist(), d.tolist(), g, w))
+    reg = crc.BitCrcRegister(CONFS[conf])
+    r0 = vc.bits(w, "r")
+    d = vc.bits(L, "d")
+    reg.register = r0.copy()
+    if vc.mode == "native":  # natively the whole loop runs; compare the final state and the return value
+        ret = reg._process_bits(d)
+        vc.prove("post_register_is_lfsr_of_chunk", reg.register.tolist() == S.lfsr(r0.tolist(), d.tolist(), g, w))
+        vc.prove("post_returns_register", ret == reg.register)
         return
     from pyvc import cut
     from pyvc.values import SBits
-    newf, _ = cut.cut(crc.BitCrcRegister._process_bits, 0, [])
-    reg = crc.BitCrcRegister(CONFS[conf])
-    r0 = vc.bits(w, "r"); d = vc.bits(L, "d")
 
     def state(kk, loc, it):
         loc["self"].register = SBits.of(S.lfsr(r0.b, d.b[:kk], g, w))
         return ()
 
     def check(kk, loc, carried):
-        vc.prove("preserved", vc.eq(loc["self"].register, SBits.of(S.lfsr(r0.b, d.b[:kk], g, w))))
+        vc.prove("invariant_init" if kk == 0 else "invariant_preserved", vc.eq(loc["self"].register, SBits.of(S.lfsr(r0.b, d.b[:kk], g, w))))
 
-    newf.__globals__["__vc"] = cut.LoopCtl(("iter", k), state, check)
-    try:
-        newf(reg, d)
-        vc.prove("loop_reached", False)
-    except cut.PathDone:
-        pass
+    st, ret = cut.run_cut(vc, crc.BitCrcRegister._process_bits, 0, [], phase, state, check, (reg, d))
+    if st == "post":
+        vc.prove("post_register_is_lfsr_of_chunk", vc.eq(reg.register, SBits.of(S.lfsr(r0.b, d.b, g, w))))
+        vc.prove("post_returns_register", vc.eq(ret, reg.register))
 
 
-bitserial.shapes = lambda tier: [dict(conf=c, L=L, k=k) for c in CONFS for L in range(1, CONFS[c].value.feed_width_bits + 1) for k in range(L)]
+bitserial.shapes = lambda tier: [dict(conf=c, L=L, phase=p) for c in CONFS for L in range(1, FEED[c] + 1) for p in ["init", "post"] + list(range(L))]
+
+
+@contract("spec.lfsr_is_remainder", "okdmr.dmrlib.etsi.crc.crc:BitCrcRegister._process_bits", ["C05"],
+          note="lemma about the spec functions only: the loop invariant's lfsr() agrees with the monomial-remainder definition")
+def lfsr_is_remainder(vc, conf, n):
+    g, w = S.ETSI[conf]
+    m = vc.bits(n, "m")
+    bits = m.tolist()
+    vc.prove("lfsr_from_zero_is_remainder", vc.eq(vc.from_bits(S.lfsr([0] * w, bits, g, w)), vc.from_bits(S.poly_remainder_bits(bits, g, w))))
+
+
+lfsr_is_remainder.shapes = lambda tier: [dict(conf=c, n=n) for c in CONFS for n in (0, 1, 7, 8, 9, 33, 96, 400)]
+
+
+# ------------------------------------------------------------------------------------------------ engines
+@contract("BitCrcCalculator.calculate_checksum", "okdmr.dmrlib.etsi.crc.crc:BitCrcCalculator.calculate_checksum", ["C05", "C19"], stubs=["BitCrcRegister._process_bits"])
+def engine(vc, conf, n, table):
+    g, w = S.ETSI[conf]
+    cfg = CONFS[conf].value
+    vc.prove("configuration_is_etsi", cfg.polynomial == g and cfg.width_bits == w and cfg.init_value == 0 and cfg.final_xor_value == 0 and not cfg.reverse_input_bytes and not cfg.reverse_output_bytes)
+    vc.prove("feed_width", cfg.feed_width_bits == FEED[conf])
+    calc = crc.BitCrcCalculator(CONFS[conf], table_based=table)
+    # C19: whatever an earlier call left in the register must not matter
+    calc._crc_register._register = vc.bits(w, "leftover")
+    m = vc.bits(n, "m")
+    before = m.copy()
+    r = calc.calculate_checksum(m)
+    vc.prove("length_w", len(r) == w)
+    want = S.poly_remainder_bits(m.tolist(), g, w)
+    vc.prove("equals_polynomial_remainder", vc.eq(vc.from_bits(r.tolist()), vc.from_bits(want)))
+    vc.prove("frame_argument_unchanged", vc.eq(m, before))
+    v = vc.uint(w, "v")
+    vc.prove("verify_accepts_exactly_the_computed_value", vc.iff(calc.verify_checksum(m, v), vc.eq(vc.from_bits(want), v)))
+
+
+QUICK_LEN = sorted(set(list(range(0, 34)) + [40, 63, 64, 65, 79, 80, 81, 87, 96, 103, 119, 151, 183, 199, 399, 400]))
+
+
+def _engine_shapes(tier):
+    lengths = range(0, 401) if tier == "thorough" else QUICK_LEN
+    for conf in CONFS:
+        for n in lengths:
+            yield dict(conf=conf, n=n, table=True)
+            if n <= 40 or tier == "thorough":
+                yield dict(conf=conf, n=n, table=False)
+
+
+engine.shapes = _engine_shapes
+
+
+@contract("CRC.detection_lemma", "okdmr.dmrlib.etsi.crc.crc:BitCrcCalculator.calculate_checksum", ["C05"], stubs=["BitCrcRegister._process_bits"],
+          note="lemma on the linear map extracted from the real engine: bursts <= w and (CRC-CCITT, 80 message bits) 1-3 bit differences change the CRC")
+def detection(vc, conf, n):
+    g, w = S.ETSI[conf]
+    if vc.mode == "native":
+        from bitarray import bitarray
+
+        calc = crc.BitCrcCalculator(CONFS[conf], table_based=True)
+        cols = []
+        for i in range(n):
+            u = bitarray(n)
+            u.setall(0)
+            u[i] = 1
+            cols.append(int(calc.calculate_checksum(u).to01(), 2))
+        z = bitarray(n)
+        z.setall(0)
+        vc.prove("engine_is_linear", int(calc.calculate_checksum(z).to01() or "0", 2) == 0)
+    else:
+        calc = crc.BitCrcCalculator(CONFS[conf], table_based=True)
+        m = vc.bits(n, "m")
+        r = calc.calculate_checksum(m)
+        rows, consts = vc.linear_map(r.tolist(), list(m))
+        vc.prove("engine_is_linear", not any(consts))
+        cols = [sum(((rows[i] >> j) & 1) << i for i in range(w)) for j in range(n)]
+    # every window of <= w consecutive columns is linearly independent  <=>  no non-zero burst of length <= w is in the kernel
+    ok = True
+    bad = None
+    for s in range(n):
+        basis = []
+        for c in cols[s:s + w]:
+            v = c
+            for b in basis:
+                v = min(v, v ^ b)
+            if v == 0:
+                ok, bad = False, s
+                break
+            basis.append(v)
+        if not ok:
+            break
+    vc.prove("every_burst_up_to_w_bits_changes_the_crc", ok, note=dict(window_start=bad))
+    if conf == "Crc16" and n == 80:
+        seen = {}
+        ok3 = all(c for c in cols)
+        pairs = {}
+        for i, j in itertools.combinations(range(n), 2):
+            x = cols[i] ^ cols[j]
+            if x == 0:
+                ok3 = False
+            pairs.setdefault(x, (i, j))
+        for k, c in enumerate(cols):  # a triple sums to zero iff some column equals the XOR of two others
+            if c in pairs and k not in pairs[c]:
+                ok3 = False
+        vc.prove("one_to_three_bit_differences_change_crc_ccitt", ok3)
+
+
+detection.shapes = lambda tier: [dict(conf=c, n=n) for c in CONFS for n in sorted({{"Crc7": 9, "Crc8": 28, "Crc9": 87, "Crc16": 80, "Crc32": 96}[c], 80, 400 if tier == "thorough" else 160})]
+
+
+# ------------------------------------------------------------------------------------------------ front ends
+def havoc_calc(vc, cls, w):
+    """C19: the class-level calculator singleton keeps a register between calls - give it arbitrary contents"""
+    cls.CALC._crc_register._register = vc.bits(w, "leftover")
+
+
+@contract("CRC16.calculate", "okdmr.dmrlib.etsi.crc.crc16:CRC16.calculate", ["C05", "C19"], stubs=["BitCrcRegister._process_bits"])
+def crc16_calculate(vc, nbytes, mask):
+    d = vc.bytes_(nbytes, "d")
+    havoc_calc(vc, CRC16, 16)
+    r = CRC16.calculate(d, CrcMasks[mask])
+    vc.prove("mask_is_etsi", CrcMasks[mask].value == S.MASKS[mask])
+    rem = vc.from_bits(S.poly_remainder_bits(byte_bits(vc, d), 0x1021, 16))
+    want = (rem ^ 0xFFFF) ^ S.MASKS[mask]
+    vc.prove("inverted_remainder_xor_mask", vc.eq(r, want))
+    v = vc.uint(16, "v")
+    vc.prove("check_accepts_exactly_the_computed_value", vc.iff(CRC16.check(d, v, CrcMasks[mask]), vc.eq(want, v)))
+
+
+crc16_calculate.shapes = lambda tier: [dict(nbytes=n, mask=m) for n in ((0, 1, 2, 9, 10, 12, 40) if tier == "quick" else range(0, 51)) for m in S.MASKS if S.MASKS[m] <= 0xFFFF or True]
+
+
+@contract("CRC8.calculate", "okdmr.dmrlib.etsi.crc.crc8:CRC8.calculate", ["C05", "C19"], stubs=["BitCrcRegister._process_bits"])
+def crc8_calculate(vc, n):
+    d = vc.bits(n, "d")
+    havoc_calc(vc, CRC8, 8)
+    before = d.copy()
+    r = CRC8.calculate(d)
+    want = vc.from_bits(S.poly_remainder_bits(d.tolist(), 0x07, 8))
+    vc.prove("plain_remainder_no_inversion_no_mask", vc.eq(r, want))
+    vc.prove("frame_argument_unchanged", vc.eq(d, before))
+    v = vc.uint(8, "v")
+    vc.prove("check_accepts_exactly_the_computed_value", vc.iff(CRC8.check(d, v), vc.eq(want, v)))
+
+
+crc8_calculate.shapes = lambda tier: [dict(n=n) for n in ((0, 1, 7, 8, 9, 27, 28, 29, 36, 72) if tier == "quick" else range(0, 101))]
+
+
+@contract("CRC9.calculate", "okdmr.dmrlib.etsi.crc.crc9:CRC9.calculate", ["C05", "C19"], stubs=["BitCrcRegister._process_bits"])
+def crc9_calculate(vc, n, mask):
+    d = vc.bits(n, "d")
+    havoc_calc(vc, CRC9, 9)
+    r = CRC9.calculate(d, CrcMasks[mask])
+    vc.prove("mask_is_etsi", CrcMasks[mask].value == S.MASKS[mask])
+    rem = vc.from_bits(S.poly_remainder_bits(d.tolist(), 0x059, 9))
+    vc.prove("inverted_remainder_xor_mask", vc.eq(r, (rem ^ 0x1FF) ^ S.MASKS[mask]))
+
+
+crc9_calculate.shapes = lambda tier: [dict(n=n, mask=m) for n in ((0, 1, 8, 9, 10, 87, 103, 135, 183) if tier == "quick" else range(0, 200)) for m in ("Rate12DataContinuation", "Rate34DataContinuation", "Rate1DataContinuation")]
+
+
+@contract("CRC9.calculate_from_parts", "okdmr.dmrlib.etsi.crc.crc9:CRC9.calculate_from_parts", ["C05", "C19"], stubs=["BitCrcRegister._process_bits"])
+def crc9_parts(vc, nbytes, mask, crc32kind):
+    """B.3.10: CRC-9 over data octets (+ the 32-bit CRC of the last block when given) followed by the 7-bit serial number"""
+    d = vc.bytes_(nbytes, "d")
+    sn = vc.uint(7, "sn")
+    havoc_calc(vc, CRC9, 9)
+    bits = byte_bits(vc, d)
+    if crc32kind == "none":
+        c32 = None
+    elif crc32kind == "zero":
+        c32 = 0
+    elif crc32kind == "int":
+        c32 = vc.uint(32, "c32")
+        vc.assume(vc.not_(vc.eq(c32, 0)))
+        bits = bits + vc.bitlist(c32, 32)
+    else:
+        c32 = vc.bytes_(4, "c32b")
+        bits = bits + byte_bits(vc, c32)
+    bits = bits + vc.bitlist(sn, 7)
+    r = CRC9.calculate_from_parts(data=d, serial_number=sn, mask=CrcMasks[mask], crc32=c32)
+    rem = vc.from_bits(S.poly_remainder_bits(bits, 0x059, 9))
+    want = (rem ^ 0x1FF) ^ S.MASKS[mask]
+    vc.prove("crc9_of_data_crc32_serial", vc.eq(r, want))
+    v = vc.uint(9, "v")
+    vc.prove("check_accepts_exactly_the_computed_value", vc.iff(CRC9.check(data=d, serial_number=sn, crc9=v, mask=CrcMasks[mask], crc32=c32), vc.eq(want, v)))
+
+
+GEOM = (("Rate12DataContinuation", (10, 6, 12, 8)), ("Rate34DataContinuation", (16, 12, 18, 14)), ("Rate1DataContinuation", (22, 18, 24, 20)))
+crc9_parts.shapes = lambda tier: [dict(nbytes=n, mask=m, crc32kind=k) for m, ns in GEOM for n in ns for k in ("none", "zero", "int", "bytes")]
+
+
+@contract("CRC32.calculate", "okdmr.dmrlib.etsi.crc.crc32:CRC32.calculate", ["C05", "C19"], stubs=["BitCrcRegister._process_bits"])
+def crc32_calculate(vc, nbytes):
+    """B.3.9: plain remainder (no inversion, no mask) over the data taken as 16-bit words, low octet first"""
+    d = vc.bytes_(nbytes, "d")
+    havoc_calc(vc, CRC32, 32)
+    r = CRC32.calculate(d)
+    octs = S.byteswap16(list(d) if vc.mode == "native" else list(d.v))
+    bits = []
+    for o in octs:
+        bits += vc.bitlist(o, 8)
+    want = vc.from_bits(S.poly_remainder_bits(bits, 0x04C11DB7, 32))
+    vc.prove("remainder_over_swapped_words", vc.eq(r, want))
+    v = vc.uint(32, "v")
+    vc.prove("check_accepts_exactly_the_computed_value", vc.iff(CRC32.check(d, v), vc.eq(want, v)))
+
+
+crc32_calculate.shapes = lambda tier: [dict(nbytes=n) for n in ((0, 1, 2, 3, 4, 5, 8, 12, 20, 24, 36, 64) if tier == "quick" else list(range(0, 65)) + [96, 120, 144, 192, 240])]
